@@ -844,6 +844,11 @@ func (g *gen) program() (string, []srcModule) {
 			"fy := \x01fz\x02" + g.expr(tInt, 1) + ", 2\x03\n" +
 			"log(\x01fy\x023\x03, \x042\x02fy\x02" + g.expr(tInt, 1) + "\x03)\n")
 	}
+	if g.cfg.CallMark && g.t.Bool(1, 2) {
+		// a batch on one handle in which some items fail and later ones must still succeed
+		bad := g.t.Draw(4)
+		g.addTop(fmt.Sprintf("ze := 0\nfe := func(x) { if x == %d { throw \"bad item\" }; ze += x; return ze }\nlog(\x05fe\x020, 1, 2, 3, %d\x03, ze)\n", bad, g.t.Draw(4)))
+	}
 	if g.cfg.CallMark && g.t.Bool(1, 3) {
 		// a stateful module whose first import of the run may happen inside a function invoked from Go
 		g.addTop("fzm := func() { zm := import(\"modA\"); return zm.inc() }\n" +
